@@ -182,7 +182,7 @@ structure Graph.CertOK (g : Graph) : Prop where
 * `hpre`   — the stated preconditions: an excluded edge that is not also a normal edge is never executed (no empty
   `std::function` is invoked, assertions are compiled out, no exception unwinds).
 Conclusion: no call path of any length from a realtime entry reaches a forbidden function (allocator, deallocator,
-lock, exception allocation, stdio, unresolvable call, atomic read-modify-write), and every function without a body
+lock, exception allocation, stdio, unresolvable call, atomic read-modify-write in a loop), and every function without a body
 on such a path is a whitelisted leaf. -/
 def Graph.Safe (g : Graph) : Prop :=
   ∀ Calls : Nat → Nat → Prop,
